@@ -20,7 +20,7 @@ const CALLERS: &[&str] = &["deployer", "other-account-same-salt", "deployer-unus
 const CANON: &[&str] = &["registered", "unregistered-token", "payer-no-auth", "payer-stranger-auth"];
 const DESTS: &[&str] = &["trusted", "never-trusted", "removed", "hub-chain"];
 const GAS: &[&str] = &["zero", "negative", "one", "balance", "balance+1"];
-const META: &[&str] = &["plain", "multi-byte", "decimals-0", "decimals-255", "decimals-256", "decimals-263", "decimals-u32-max", "empty-name", "empty-symbol", "non-utf8-name", "non-utf8-symbol", "asset-style"];
+const META: &[&str] = &["plain", "multi-byte", "decimals-0", "decimals-255", "decimals-256", "decimals-263", "decimals-u32-max", "empty-name", "empty-symbol", "non-utf8-name", "non-utf8-symbol", "asset-style", "trailing-nul", "only-nul", "interior-nul", "whitespace", "long-name"];
 
 fn str_of(u: &mut U, t: &Address, which: &'static str) -> Option<Vec<u8>> {
     let t = t.clone();
@@ -201,6 +201,13 @@ pub fn run(ctx: &Ctx, rep: &mut Report) {
                         "empty-name" => (vec![], b"P".to_vec(), 6),
                         "empty-symbol" => (b"P".to_vec(), vec![], 6),
                         "non-utf8-name" => (vec![0xff, 0xfe, 0x41], b"P".to_vec(), 6),
+                        // bytes a lenient conversion might trim or stop at: the announcement must
+                        // carry exactly what the token reports
+                        "trailing-nul" => (b"Padded\0\0".to_vec(), b"USD\0".to_vec(), 6),
+                        "only-nul" => (b"\0".to_vec(), b"\0\0\0\0".to_vec(), 6),
+                        "interior-nul" => (b"A\0B".to_vec(), b"\0X".to_vec(), 6),
+                        "whitespace" => (b" spaced \n".to_vec(), b"\tT ".to_vec(), 6),
+                        "long-name" => (vec![b'n'; 300], vec![b's'; 33], 6),
                         _ => (b"USDC:GA5ZSEJYB37JRC5AVCIA5MOP4RHTM335X2KGX3IHOJAPP5RE34K4KZVN".to_vec(), b"USDC".to_vec(), 7),
                     };
                     let pa = probe.addr.clone();
@@ -369,5 +376,5 @@ pub fn run(ctx: &Ctx, rep: &mut Report) {
     req.extend(META.iter().map(|c| format!("meta:{}", c)));
     rep.notes.insert("required".into(), json!(req));
     rep.notes.insert("token_mode".into(), json!("native"));
-    rep.notes.insert("rule".into(), json!("universes of 24 requests over 2 service-deployed tokens (tree code; plain, multi-byte, 1-character and 255-decimals metadata), a registered asset contract, a registered probe token whose name/symbol/decimals are varied (multi-byte, 0/255/256 decimals, empty name or symbol, non-UTF-8 name, asset-style CODE:ISSUER) and an unregistered asset: deploy_remote_interchain_token by the deployer, another account reusing the salt, an unused salt, without or with a stranger's authorisation; deploy_remote_canonical_token for registered / unregistered tokens with the payer's, no or a stranger's authorisation; destination in {trusted, never trusted, removed, the hub chain (trusted in a third of the universes)}; gas in {0, -1, 1, balance, balance+1}. On success the announced payload is compared with the independent encoding built from metadata read from the token; exactly one token_deployment_started; gas_paid for that payload; all balances diffed. distinct = (entry point, variant, destination class, gas class, metadata representable, outcome)"));
+    rep.notes.insert("rule".into(), json!("universes of 24 requests over 2 service-deployed tokens (tree code; plain, multi-byte, 1-character and 255-decimals metadata), a registered asset contract, a registered probe token whose name/symbol/decimals are varied (multi-byte, 0/255/256 decimals, empty name or symbol, non-UTF-8 name, asset-style CODE:ISSUER, trailing / interior / only NUL bytes, surrounding whitespace, 300-byte name) and an unregistered asset: deploy_remote_interchain_token by the deployer, another account reusing the salt, an unused salt, without or with a stranger's authorisation; deploy_remote_canonical_token for registered / unregistered tokens with the payer's, no or a stranger's authorisation; destination in {trusted, never trusted, removed, the hub chain (trusted in a third of the universes)}; gas in {0, -1, 1, balance, balance+1}. On success the announced payload is compared with the independent encoding built from metadata read from the token; exactly one token_deployment_started; gas_paid for that payload; all balances diffed. distinct = (entry point, variant, destination class, gas class, metadata representable, outcome)"));
 }
